@@ -17,14 +17,22 @@ func newResponses(i *catalog.HTTPInteraction) (*Responses, Error) {
 		return defaultResponses(), nil
 	}
 
+	// The codes are processed in the order of their first appearance, not in the
+	// order of the map iteration, otherwise the reported error changes from call
+	// to call when several responses can't be converted.
 	sortedResponses := make(map[responseCode][]*catalog.HTTPResponse)
+	codes := make([]responseCode, 0, len(i.Responses))
 	for idx, resp := range i.Responses {
 		rCode := responseCode(resp.Code)
+		if _, ok := sortedResponses[rCode]; !ok {
+			codes = append(codes, rCode)
+		}
 		sortedResponses[rCode] = append(sortedResponses[rCode], &i.Responses[idx])
 	}
 
 	r := make(Responses, 1)
-	for rc, respArr := range sortedResponses {
+	for _, rc := range codes {
+		respArr := sortedResponses[rc]
 		var err Error
 		var resp *ResponseObject
 
